@@ -98,6 +98,14 @@ CHECKS = {
         "Trusted: snapshot/compare helpers. No side-effect claim for copy=False.",
         "DESIGN.md §4 C07",
     ),
+    "C12": (
+        "differential PBT: MulticlassCarver vs independently constructed one-vs-rest BinaryCarvers, column by column",
+        "Generated 3-5 class samples (int/str/oddly ordered labels), optional dev, every BinaryCarver parameter; "
+        "for every class and feature the f_c column must exist iff the reference BinaryCarver keeps f and equal its "
+        "output; raw columns unchanged, no other columns. Exploration over bounded sizes.",
+        "Trusted: BinaryCarver itself (decided by C01-C04); this check decides the composition only.",
+        "DESIGN.md §4 C12",
+    ),
     "C04": (
         "PBT with a reference oracle: table-first generated samples, transform(X_train) compared with the "
         "mapping recomputed from values_orders (list+content) only; metamorphic string-form probe",
